@@ -32,7 +32,7 @@ OBLIGATIONS = [
         "expect_classes": ["assertion"], "expect_min": 5,
     },
     {
-        "name": "dataset_item_equals_spec_7_3",
+        "name": "dataset_item_equals_spec_7_3", "backend": "kissat",
         "files": [{"cxx": XS.DATASET_ITEM, "out": "ds.c", "header": True}, "harness_item.c"],
         "incdirs": INC, "defines": ['RXV_CONTRACTS_H="contracts_item.h"'],
         "entry": "h_item", "enforce": "initDatasetItem",
